@@ -8,6 +8,28 @@
 # rule: how cases are generated and what makes one non-trivial / distinct (copied into evidence)
 
 PROPS = {
+    "C06": {
+        "level": "fault_enumeration",
+        "rule": "TestC06CrashPoints: rapid generates write scenarios (new bug single/multi-author, append 1..5 operations + commit, "
+                "new identity, two identity mutations, dag-level pull hitting merge scenarios 1/4/5 with generated branch lengths, "
+                "cache pull, cache new+comment+title) on a prepared two-replica world; a counting run records the N storage "
+                "mutations (blob/tree/commit writes, ref updates and copies, clock increments and witnesses, fetches) and the legal "
+                "resting states; then EVERY abort point k in 0..N-1 is enumerated: restore the directory snapshot, rerun, make "
+                "mutation k and all later calls fail, re-open with clock loaders, read every bug and identity, require each entity "
+                "to be in a state it had before or after a step, clocks usable and above every stored time, and repeating the "
+                "interrupted step to reach the post state with each operation once. TestC06TornClock: every crash point (file-system "
+                "call or byte) inside an update of a persisted clock file, through a fault-injecting billy filesystem, for generated "
+                "values across digit-length boundaries. Non-trivial: abort strictly inside the write (k>0 / budget>0). "
+                "Distinct: scenario + N + k (+ branch lengths); digit pattern + crash point.",
+        "exhaustive": False,
+        "exhaustive_note": "abort points are enumerated exhaustively per generated scenario; scenarios and clock values are sampled",
+        "assumptions": ["crash granularity = between storage API calls of repository.ClockedRepo, and between/inside file-system calls for clock files",
+                        "atomicity inside go-git's own object and ref writers is git's and is not enumerated",
+                        "objects left unreferenced by an interrupted write are not a violation",
+                        "cache files (excerpts, index) may be stale after a crash; only git data and clocks are judged"],
+        "tests": [{"name": "TestC06CrashPoints", "quick": 24, "shards_quick": 3, "thorough": 150, "shards": 16},
+                  {"name": "TestC06TornClock", "quick": 150, "thorough": 2000, "shards": 2}],
+    },
     "C05": {
         "level": "exploration",
         "rule": "rapid generates stateful sequences (3..35 actions) on one repository (go-git with persisted clocks, or the "
@@ -111,6 +133,14 @@ PROPS = {
 
 # Text for MANIFEST.json, per claimed property.
 MANIFEST_TEXT = {
+    "C06": {
+        "technique": "fault injection with exhaustive enumeration of abort points per rapid-generated write scenario; fault-injecting filesystem for torn clock files",
+        "level_text": "For every generated write scenario each prefix of its sequence of storage mutations is executed and followed by a "
+                      "re-open and a full read (old-or-new per entity, clocks, repeatability); clock-file updates are cut at every "
+                      "file-system call and byte. Exhaustive over crash points per scenario, sampled over scenarios.",
+        "design_ref": "DESIGN.md §4 C06",
+        "level_note": "Trusted: the crash model (see assumptions); directory snapshot/restore as 'the disk at the time of death'.",
+    },
     "C05": {
         "technique": "stateful property-based testing (rapid): clock/commit/merge/re-open/delete sequences vs a max-of-everything-seen model, on persisted and in-memory clocks",
         "level_text": "Model-based stateful testing: a reference lower bound per clock is maintained across generated action sequences "
